@@ -27,6 +27,7 @@ META = dict(
 JOBS = int(os.environ.get("VERIF_JOBS", "0") or 0) or None
 TLC_ENV = {"JAVA_TOOL_OPTIONS": "-Xss512m"}     # a macro step is a recursion of several hundred single-block steps
 CLAUSES = {
+    "ObsFileInfoCovers": "a block file's info (nHeightFirst..nHeightLast) does not cover a block stored in the file",
     "ObsKeepsRecentX": "a pruned file held a block within the last 288 blocks of the tip",
     "ObsKeepsLockedX": "a pruned file held a block at or above an active prune lock",
     "ObsKeepsBuffer": "a pruned file held a block inside the 10-block buffer below a prune lock",
@@ -74,6 +75,14 @@ def judge(ctx, res, tests, cfg, name, args):
         t = obs[idx]
         case = tests[t["index"]] if t.get("index") is not None and t["index"] < len(tests) else None
         o = t["obs"]
+        if inv == "ObsFileInfoCovers":
+            bad = [(f, o["after"][f]["hf"], o["after"][f]["hl"], min(h), max(h)) for f, h in enumerate(o["heights"])
+                   if h and f < len(o["after"]) and o["after"][f]["size"] > 0 and (min(h) < o["after"][f]["hf"] or max(h) > o["after"][f]["hl"])]
+            what = "%s: after %s (step %s) tip=%d; (file, nHeightFirst, nHeightLast, lowest stored, highest stored): %s" % (
+                CLAUSES[inv], json.dumps(t.get("action")), t.get("step"), o["tip"], bad[:4])
+            if ctx.violation("fileinfo:" + vflib.digest([t.get("action"), bad[:1]]), what, dict(adapter="prune", mode="replay", args=list(args), case=case, observation=dict(after=o["after"], heights=o["heights"]), clause=inv)):
+                n_viol += 1
+            continue
         spans = [(f, min(o["heights"][f]), max(o["heights"][f])) for f in o["pruned"] if o["heights"][f]]
         top = sorted(spans, key=lambda x: -x[2])[:3]
         what = "%s: after %s (step %s) tip=%d locks=%s usage %s -> %s; %d files pruned, the highest (file, first height, last height): %s" % (
@@ -117,7 +126,7 @@ def run(ctx):
     rs = ctx.tlc("Prune", "MCPrune", "Sim_manual.cfg", simulate=(nsim, depth), env=TLC_ENV, timeout=2400)
     tests += vflib.sim_behaviours(rs.emit_path)
     count_actions(tests, acc)
-    for k in ("action:connect", "action:reorg", "action:manual", "action:lock", "action:unlock", "action:auto", "step_prunes:manual", "reorg_moves_lock_back"):
+    for k in ("action:connect", "action:reorg", "action:swap", "action:manual", "action:lock", "action:unlock", "action:auto", "step_prunes:manual", "reorg_moves_lock_back"):
         if not acc[k]:
             raise vflib.InfraError("vacuity: the replayed behaviours never exercise " + k)
     args = ["fast=1", "target=manual"]
